@@ -338,7 +338,16 @@ def main():
     (VERIF / "MANIFEST.json").write_text(json.dumps(m, indent=1) + "\n")
 
 
-NA = {}
+NA = {
+    "C30": "Termination of check-sat outside integer arithmetic is a liveness property of unbounded loops (CDCL with clause deletion and "
+           "restarts, lookahead tree search, Simplex pivoting with a late switch to Bland's rule, theory combination). A proof in this "
+           "family needs a model of those loops together with a well-founded measure that the real engines provably decrease, and a tie "
+           "that observes the measure on every step of the real run; neither a finite model nor a trace check can exhibit divergence, "
+           "and a timeout on sampled inputs is a test, not a theorem. No such measure could be established for the engines as they are "
+           "(learnt clauses are deleted, the pivoting rule is heuristic for the first #columns rounds) in the time of this effort, so the "
+           "property is not claimed rather than decided by timeouts. What the other checks do observe: every run of the C01-C05 corpora "
+           "that exceeds its time limit is counted in the evidence (`timeouts`) instead of being judged.",
+}
 HOOK_COMMITS = []
 if __name__ == "__main__":
     import subprocess
